@@ -4,7 +4,6 @@ import os
 import re
 
 META = {
-    "disabled": True,
     "level": "model_checking",
     "text": "TLC exhaustively checks the signing-done specification (listener Accept under the mutex, waiter Check, Timeout) over "
             "the full message alphabet (sender key x claimed seat x message x attempt x end block x signature, duplicates) at "
